@@ -67,6 +67,7 @@ GhostInit(S) ==
     lastAck  |-> EmptyFn,
     lastAckR |-> EmptyFn,                 \* <<leader, term, follower>> -> line at which the leader RECEIVED the last successful response                 \* <<leader, term, follower>> -> line of the last successful AE/HB/IS handling
     contact  |-> EmptyFn,                 \* <<leader, follower>> -> time (us) of the last response received
+    ish      |-> EmptyFn,                 \* InstallSnapshot rpc id -> <<follower, snapshot index>> once handled successfully
     isrep    |-> [n \in S |-> <<0, 0>>],  \* <<snapshot index, consecutive installs without progress>>
     blocked  |-> {},                      \* unordered pairs that cannot communicate
     notif    |-> [n \in S |-> <<>>],      \* values consumed from NotifyCh, this incarnation
@@ -397,15 +398,15 @@ DoHandle(ln) ==
       dupd == Has(ln, "dup") /\ ln.dup     \* a duplicate injected by the network, not a transfer the leader repeated
       V  == {<<"C06", "TwoVotesInTerm", <<n, x[2], x[3], ln.req.cand>>>> :
                x \in {y \in g.grants : gr # {} /\ y[1] = n /\ y[2] = ln.req.term /\ y[3] # ln.req.cand}}
-            \cup (IF ln.kind = "is" /\ ok /\ ~dupd /\ g.isrep[n][1] = ln.req.idx /\ g.isrep[n][2] >= 2
-                  THEN {<<"C12", "SameSnapshotInstalledAgain", <<n, ln.req.idx, g.isrep[n][2] + 1>>>>} ELSE {})
+
   IN /\ g' = [g EXCEPT !.hpend[n] = Append(@, [regrant |-> (gr # {} /\ gr \subseteq g.grants)] @@ ln),
                        !.grants = @ \cup gr,
                        !.seenTerm[n] = IF ln.kind \in {"ae", "hb", "is", "rv"} THEN Max(@, ln.req.term) ELSE @,
                        !.lastAck = IF ok THEN [p \in {<<ln.src, ln.req.term, n>>} |-> l] @@ @ ELSE @,
-                       !.isrep[n] = IF ln.kind = "is" /\ ok /\ ~dupd
-                                    THEN (IF @[1] = ln.req.idx THEN <<@[1], @[2] + 1>> ELSE <<ln.req.idx, 1>>)
-                                    ELSE IF ln.kind = "ae" /\ ok /\ Len(ln.req.entries) > 0 THEN <<0, 0>> ELSE @]
+                       \* an installation counts as a transfer the leader repeated only once the leader has SEEN it succeed
+                       \* (DoReply): a lost response makes the leader try again, which is the fault's doing
+                       !.ish = IF ln.kind = "is" /\ ok /\ ~dupd THEN [p \in {ln.id} |-> <<n, ln.req.idx>>] @@ @ ELSE @,
+                       !.isrep[n] = IF ln.kind = "ae" /\ ok /\ Len(ln.req.entries) > 0 THEN <<0, 0>> ELSE @]
      /\ Judge(V, {}) /\ Keep
 
 DoDeliver(ln) ==  \* a request was handed to ln.n: from now on it knows the sender's term
@@ -413,14 +414,21 @@ DoDeliver(ln) ==  \* a request was handed to ln.n: from now on it knows the send
   /\ Quiet /\ Keep
 
 DoReply(ln) ==   \* a response reached the caller ln.n from ln.dst
-  /\ g' = [g EXCEPT !.contact = IF Has(ln, "resp") /\ ln.kind \in {"ae", "hb", "is"}
+  LET acked == Has(ln, "resp") /\ ln.kind = "is" /\ ln.resp.ok /\ ln.id \in DOMAIN g.ish
+      f     == g.ish[ln.id][1]
+      idx   == g.ish[ln.id][2]
+      rep2  == IF g.isrep[f][1] = idx THEN <<idx, g.isrep[f][2] + 1>> ELSE <<idx, 1>>
+      V     == IF acked /\ rep2[2] >= 3 THEN {<<"C12", "SameSnapshotInstalledAgain", <<f, idx, rep2[2]>>>>} ELSE {}
+  IN
+  /\ g' = [g EXCEPT !.isrep = IF acked THEN [@ EXCEPT ![f] = rep2] ELSE @,
+                    !.contact = IF Has(ln, "resp") /\ ln.kind \in {"ae", "hb", "is"}
                                 THEN [p \in {<<ln.n, ln.dst>>} |-> ln.t] @@ @ ELSE @,
                     !.lastAckR = IF Has(ln, "resp") /\ ln.kind \in {"ae", "hb", "is"} /\ ln.resp.ok /\ ln.resp.term <= obs[ln.n].term
                                  THEN [p \in {<<ln.n, obs[ln.n].term, ln.dst>>} |-> l] @@ @ ELSE @,
                     !.pvGrants = IF Has(ln, "resp") /\ ln.kind = "pv" /\ ln.resp.granted THEN @ \cup {<<ln.n, ln.resp.term, ln.dst>>} ELSE @,
                     !.seenTerm[ln.n] = IF Has(ln, "resp") /\ (ln.kind \in {"ae", "hb", "is"} \/ (ln.kind \in {"rv", "pv"} /\ ~ln.resp.granted))
                                        THEN Max(@, ln.resp.term) ELSE @]
-  /\ Quiet /\ Keep
+  /\ Judge(V, {}) /\ Keep
 
 DoStore(ln) ==
   LET n == ln.n
